@@ -66,6 +66,17 @@ def _strategy(tier):
         gscale_exp=st.sampled_from([0, 0, 0, 0, -24, -18, -15, -12, 9, 15]),
         # total power placed at / next to the power at which one more
         # channel is switched on (relative distance 1e-12..1e-3, or exactly)
+        # total power and noise scaled together (powers in Watts: 1e-13,
+        # or huge): the allocation scales with them
+        pscale_exp=st.sampled_from([0, 0, 0, 0, -30, -20, -13, -8, 8, 20]),
+        # the scalars as the caller's number type: floats, or Python ints
+        # when their values are whole numbers
+        int_scalars=st.booleans(),
+        # a long gain vector (n up to 2048), drawn from a seeded generator
+        long=st.one_of(st.none(), st.none(), st.none(), st.none(), st.none(),
+                       st.none(), st.none(), st.none(), st.none(),
+                       st.tuples(st.sampled_from([33, 64, 300, 1100, 2048]),
+                                 seeds).map(list)),
         pt_switch=st.one_of(st.none(), st.none(), st.none(), st.tuples(
             fl(0.0, 1.0), st.integers(-12, -3),
             st.sampled_from([-1, -1, 1, 0])).map(list)),
@@ -99,7 +110,16 @@ def _capacity(g, Es, N0, p):
 def check(case, ctx):
     from pyphysim.comm.waterfilling import doWF
     g = [float(x) for x in case["gains"]]
+    if case.get("long"):
+        ln, lseed = case["long"]
+        g = (10.0 ** np.random.RandomState(int(lseed)).uniform(
+            -3.0, 3.0, int(ln))).tolist()
+        ctx.label("long_vector")
     Pt, N0, Es = float(case["Pt"]), float(case["N0"]), float(case["Es"])
+    pe = int(case.get("pscale_exp", 0))
+    if pe:
+        Pt, N0 = Pt * 10.0 ** pe, N0 * 10.0 ** pe
+        ctx.label("power_scaled_1e%d" % pe)
     n = len(g)
     tags = dict(Es_is_one=(Es == 1.0), n=n)
     # the caller's array: integer gains may come as an integer-dtype array
@@ -128,7 +148,14 @@ def check(case, ctx):
     garr = np.array(g, dtype=gdtype)
     ctx.label("gains_dtype=" + gdtype)
     tags["gdtype"] = gdtype
-    p, mu = doWF(garr, Pt, N0, Es)
+    args = [Pt, N0, Es]
+    if case.get("int_scalars") and not ge and not pe:
+        # e.g. doWF(gains, 10): whole-number scalars given as Python ints
+        # (the values are rounded to whole numbers >= 1 for this class)
+        Pt, N0, Es = [float(max(1, int(round(x)))) for x in (Pt, N0, Es)]
+        args = [int(Pt), int(N0), int(Es)]
+        ctx.label("scalars_python_int")
+    p, mu = doWF(garr, *args)
     p = np.asarray(p, dtype=float)
     mu = float(mu)
     # ordinary use: the same gains array is used again (power sweep, a later
@@ -138,7 +165,7 @@ def check(case, ctx):
         raise Violation("gains_array_modified", "doWF changed the array of "
                         "gains handed to it: %r -> %r" % (g, garr.tolist()),
                         tags)
-    p_again, mu_again = doWF(garr, Pt, N0, Es)
+    p_again, mu_again = doWF(garr, *args)
     if not (np.array_equal(np.asarray(p_again, dtype=float), p) and
             float(mu_again) == mu):
         raise Violation("second_call_differs", "a second identical call "
@@ -178,7 +205,7 @@ def check(case, ctx):
     cap = _capacity(g, Es, N0, p)
     ctol = 1e-9 * (1.0 + abs(cap))
     worst = 0.0
-    for w in case["simplex"]:
+    for w in (case["simplex"] if n <= 12 else []):
         w = [max(x, 0.0) for x in w[:n]]
         s = math.fsum(w)
         if s <= 0:
@@ -186,10 +213,15 @@ def check(case, ctx):
         q = [Pt * (x / s) for x in w]
         worst = max(worst, _capacity(g, Es, N0, q) - cap)
     eps = case["eps"]
-    for i in range(n):
+    idx = list(range(n))
+    if n > 32:
+        # long vectors: transfers between 12 sampled channels only
+        idx = sorted(np.random.RandomState(case["perm_seed"]).permutation(
+            n)[:12].tolist())
+    for i in idx:
         if p[i] <= 0:
             continue
-        for j in range(n):
+        for j in idx:
             if i == j:
                 continue
             q = list(p)
@@ -202,7 +234,7 @@ def check(case, ctx):
     # permutation equivariance
     rs = np.random.RandomState(case["perm_seed"])
     perm = rs.permutation(n)
-    p2, mu2 = doWF(np.array(g)[perm], Pt, N0, Es)
+    p2, mu2 = doWF(np.array(g)[perm], *args)
     ctx.close("perm_level", abs(float(mu2) - mu), 1e-12 * scale, "", tags)
     ctx.close("perm_alloc", float(np.max(np.abs(np.asarray(p2) - p[perm]))),
               1e-12 * scale, "perm=%r" % perm.tolist(), tags)
